@@ -174,25 +174,8 @@ func runStructural(id string, prog *Program, specs *SpecSet, known *KnownFile) e
 								if isAllowed {
 									continue
 								}
-								for _, r2 := range *u.Referrers() {
-									switch w := r2.(type) {
-									case *ssa.DebugRef, *ssa.Lookup, *ssa.Range, *ssa.Index:
-									case *ssa.IndexAddr:
-										if interiorWritten(w) {
-											offenders = append(offenders, funcKey(fn)+" (writes an element)")
-										}
-									case *ssa.MapUpdate:
-										offenders = append(offenders, funcKey(fn)+" (map update)")
-									case *ssa.Call:
-										if bi, isB := w.Common().Value.(*ssa.Builtin); isB && (bi.Name() == "len" || bi.Name() == "cap") {
-											continue
-										}
-										offenders = append(offenders, funcKey(fn)+" (passes the map/slice to "+callKey(w.Common())+")")
-									case *ssa.BinOp:
-										// comparison with nil
-									default:
-										offenders = append(offenders, funcKey(fn)+fmt.Sprintf(" (value escapes through %T)", r2))
-									}
+								for _, why := range readOnlyUses(u, 0) {
+									offenders = append(offenders, funcKey(fn)+" ("+why+")")
 								}
 							default:
 								if !isAllowed {
@@ -208,7 +191,11 @@ func runStructural(id string, prog *Program, specs *SpecSet, known *KnownFile) e
 				offenders = append(offenders, "field not found: "+st.Subject)
 			}
 		case "callers":
-			target := prog.lookupFunc(st.PkgPath, st.Subject)
+			tpkg, tkey := st.PkgPath, st.Subject
+			if i := strings.Index(tkey, "::"); i >= 0 {
+				tpkg, tkey = tkey[:i], tkey[i+2:]
+			}
+			target := prog.lookupFunc(tpkg, tkey)
 			if target == nil {
 				ok = false
 				offenders = append(offenders, "function not found: "+st.Subject)
@@ -370,4 +357,39 @@ func interiorWritten(v ssa.Value) bool {
 		}
 	}
 	return false
+}
+
+// readOnlyUses: reasons why the uses of map/slice value v are not all reads
+// (empty = every use is a read). Sub-slices are followed.
+func readOnlyUses(v ssa.Value, depth int) []string {
+	var out []string
+	refs := v.Referrers()
+	if refs == nil || depth > 4 {
+		return out
+	}
+	for _, r2 := range *refs {
+		switch w := r2.(type) {
+		case *ssa.DebugRef, *ssa.Lookup, *ssa.Range, *ssa.Index:
+		case *ssa.IndexAddr:
+			if interiorWritten(w) {
+				out = append(out, "writes an element")
+			}
+		case *ssa.MapUpdate:
+			out = append(out, "map update")
+		case *ssa.Slice:
+			out = append(out, readOnlyUses(w, depth+1)...)
+		case *ssa.Call:
+			if bi, isB := w.Common().Value.(*ssa.Builtin); isB && (bi.Name() == "len" || bi.Name() == "cap") {
+				continue
+			}
+			out = append(out, "passes the map/slice to "+callKey(w.Common()))
+		case *ssa.BinOp:
+			// comparison with nil
+		case *ssa.Phi:
+			out = append(out, readOnlyUses(w, depth+1)...)
+		default:
+			out = append(out, fmt.Sprintf("value escapes through %T", r2))
+		}
+	}
+	return out
 }
